@@ -611,6 +611,71 @@ def siblings(ctx, mod):
                                                        in cnt.items()}})
 
 
+def sweep_control(ctx, mod):
+    """Control structure of the four smoothers, read off the syntax tree
+    before any kernel is interpreted: every sweep visits every interior node
+    / line (no data-dependent skip), and the ordering alternates from sweep
+    to sweep (documented: forward, backward, forward, ...)."""
+    for fname in ('gauss_seidel', 'gauss_seidel_x', 'gauss_seidel_y',
+                  'gauss_seidel_z'):
+        fn = mod.func(fname)
+        loops = [n for n in fn.body if isinstance(n, ast.For)]
+        nul = [l for l in loops if ast.unparse(l.iter).replace(' ', '') ==
+               f'range({au.params(fn)[-1]})']
+        ctx.anchor(len(nul) == 1, f'sweep loop of {fname}')
+        nl = nul[0]
+        jumps = [n for n in ast.walk(fn) if isinstance(n, (
+            ast.Continue, ast.Break, ast.While, ast.Raise, ast.Try)) or (
+                isinstance(n, ast.Return) and n is not fn.body[-1])]
+        ctx.check('C03.S7.sweep', f'{fname}: no early exit from a sweep',
+                  not jumps, 'a continue / break / return inside the smoother '
+                  'leaves nodes of a sweep unrelaxed (their edges keep the '
+                  'old values: not affine, not consistent)',
+                  ctx.where(mod, jumps[0] if jumps else fn))
+        data = [t for t in ast.walk(nl) if isinstance(t, ast.If) and any(
+            isinstance(x, (ast.Subscript, ast.Call, ast.Attribute))
+            for x in ast.walk(t.test))]
+        ctx.check('C03.S7.sweep', f'{fname}: branches do not look at data',
+                  not data, 'a branch inside the sweep depends on array '
+                  'values: which equations are relaxed then depends on the '
+                  'field / source', ctx.where(mod, data[0] if data else fn))
+        # direction flag: the name the index switches test
+        flags = {ast.unparse(t.test) for t in ast.walk(nl) if isinstance(
+            t, ast.If) and isinstance(t.test, ast.Name)}
+        ctx.anchor(len(flags) == 1, f'direction flag of {fname}')
+        fl = flags.pop()
+        init = [n for n in fn.body if isinstance(n, ast.Assign) and
+                ast.unparse(n.targets[0]) == fl]
+        sets = [n for n in ast.walk(nl) if isinstance(n, (
+            ast.Assign, ast.AugAssign)) and ast.unparse(
+                n.targets[0] if isinstance(n, ast.Assign) else n.target) == fl]
+        ok = len(init) == 1 and isinstance(init[0].value, ast.Constant) and \
+            len(sets) == 1 and sets[0] in nl.body
+        seq = None
+        if ok:
+            cur, seq = init[0].value.value, []
+            lv = ast.unparse(nl.target)
+            upd = sets[0].value if isinstance(sets[0], ast.Assign) else \
+                ast.BinOp(left=ast.Name(id=fl, ctx=ast.Load()),
+                          op=sets[0].op, right=sets[0].value)
+            try:
+                for k in range(4):
+                    cur = FiniteEval({fl: cur, lv: k},
+                                     where=mod.rel).ev(upd)
+                    seq.append(int(bool(cur)))
+            except AnalysisError:
+                seq = None
+            ok = seq == [1 - int(bool(init[0].value.value)),
+                         int(bool(init[0].value.value))] * 2
+        ctx.check('C03.S7.sweep', f'{fname}: ordering alternates per sweep',
+                  ok, f'direction flag `{fl}` over four sweeps: {seq}; '
+                  'documented is the alternation forward / backward from one '
+                  'sweep to the next (nu = 3 is nu = 2 followed by nu = 1)',
+                  ctx.where(mod, sets[0] if sets else fn),
+                  sample={'kernel': fname, 'flag sequence': seq})
+    ctx.floor('C03.S7.sweep', 12)
+
+
 def run(ctx):
     ctx.explanation = (
         'Each Gauss-Seidel kernel is abstractly interpreted (loop body once '
@@ -625,6 +690,7 @@ def run(ctx):
         'numba compiles the kernels faithfully',
         'exact rational arithmetic of the checker']
     mod = ctx.repo.mod(CORE)
+    sweep_control(ctx, mod)
     point_smoother(ctx, mod)
     total = 0
     for line, fname in enumerate(('gauss_seidel_x', 'gauss_seidel_y',
